@@ -57,8 +57,8 @@ def jobs(pid, tier):
         if q:
             return [vrt('C01', [r'once_(int|counted)_[a-z]+-[a-z]+_(none|wait)', r'once_(int|counted|void)_(nop|assign)_.*',
                                 r'once_(moveonly|ref|void)_(val-val|val-exc|val-mvcall|drop-mvdie|exc-mvdie|val-start|start-start)_(coro|hasv|cohasv)',
-                                r'once_(int|counted)_(val-exc|exc-drop|exc-start)_cohasv'], bound=2, workers=2)]
-        return [vrt('C01', [r'once_[a-z]+_[a-z]+-[a-z]+_none', r'once_[a-z]+_(nop|assign)_.*'], unbounded=True, workers=2),
+                                r'once_(int|counted)_(val-exc|exc-drop|exc-start)_cohasv', r'once_ctorform_.*'], bound=2, workers=2)]
+        return [vrt('C01', [r'once_[a-z]+_[a-z]+-[a-z]+_none', r'once_[a-z]+_(nop|assign)_.*', r'once_ctorform_.*'], unbounded=True, workers=2),
                 vrt('C01', [r'once_[a-z]+_[a-z]+-[a-z]+_(wait|coro|hasv|cohasv)'], bound=3, workers=4),
                 vrt('C01', [r'once_counted_[a-z]+-[a-z]+-[a-z]+_(none|wait|coro)'], bound=2, workers=4),
                 vrt('C01', [r'once_int_[a-z]+-[a-z]+-[a-z]+_(none|wait|coro)'], bound=3, workers=8),
